@@ -526,8 +526,159 @@ def small_constraint_sets(n, ext):
     return [(), ((first, 1),), ((first, 0), (last, 2))]
 
 
+# ------------------------------------------------------------------ S3: histories on ONE DCOP object
+# The same DCOP object is evaluated, changed through its public API, and evaluated again (a stale internal list or cache only
+# shows on the second evaluation). Reference: the accounting recomputed from the model of the CURRENT definition.
+H_DOM = [0, 1]
+H_COSTS = [None, {1: 3}, {0: 5, 1: 10000}]  # no costs / partial dict / dict with an infinity entry
+H_TABLES = [[[0, 1], [2, 3]], [[4, 0], [0, 10000]]]
+
+
+def h_ops():
+    ops = [("var", n, ci) for n in ("x", "y", "z") for ci in range(len(H_COSTS))]
+    ops += [("con", "c0", ("x", "y"), t) for t in range(2)] + [("con", "c1", ("y", "z"), t) for t in range(2)]
+    ops += [("con", "c0", ("x", "z"), 1), ("swap", "z", "w", 1), ("swap", "w", "z", 2), ("delcon", "c1")]
+    return ops
+
+
+class HistoryModel:
+    def __init__(self):
+        self.vars = {"x": 0, "y": 1, "z": 2}  # name -> index in H_COSTS
+        self.cons = {"c0": (("x", "y"), 0)}
+
+    def legal(self, op):
+        if op[0] == "var":
+            return op[1] in self.vars and self.vars[op[1]] != op[2]
+        if op[0] == "con":
+            return all(v in self.vars for v in op[2]) and self.cons.get(op[1]) != (op[2], op[3])
+        if op[0] == "swap":
+            return op[1] in self.vars and op[2] not in self.vars and not any(op[1] in sc for sc, _ in self.cons.values())
+        return op[1] in self.cons
+
+    def apply(self, op):
+        if op[0] == "var":
+            self.vars[op[1]] = op[2]
+        elif op[0] == "con":
+            self.cons[op[1]] = (op[2], op[3])
+        elif op[0] == "swap":
+            del self.vars[op[1]]
+            self.vars[op[2]] = op[3]
+        else:
+            del self.cons[op[1]]
+
+    def solution_cost(self, a, infinity):
+        terms = [H_TABLES[t][a[sc[0]]][a[sc[1]]] for sc, t in self.cons.values()]
+        terms += [(H_COSTS[ci] or {}).get(a[n], 0) for n, ci in self.vars.items()]
+        return sum(1 for t in terms if t == infinity), sum(t for t in terms if t != infinity)
+
+
+def h_build():
+    from pydcop.dcop.dcop import DCOP
+    from pydcop.dcop.objects import Domain
+
+    d = DCOP("c13h", "min")
+    dom = Domain("d", "t", list(H_DOM))
+    objs = {}
+    for n, ci in (("x", 0), ("y", 1), ("z", 2)):
+        objs[n] = h_var(n, dom, ci)
+        d.add_variable(objs[n])
+    h_con(d, objs, "c0", ("x", "y"), 0)
+    return d, dom, objs
+
+
+def h_var(name, dom, ci):
+    from pydcop.dcop.objects import Variable, VariableWithCostDict
+
+    return Variable(name, dom) if H_COSTS[ci] is None else VariableWithCostDict(name, dom, dict(H_COSTS[ci]))
+
+
+def h_con(d, objs, cname, scope, t):
+    from pydcop.dcop.relations import NAryMatrixRelation
+
+    d.add_constraint(NAryMatrixRelation([objs[v] for v in scope], H_TABLES[t], name=cname))
+
+
+def h_apply(d, dom, objs, op):
+    if op[0] == "var":
+        objs[op[1]] = h_var(op[1], dom, op[2])
+        d.add_variable(objs[op[1]])
+    elif op[0] == "con":
+        h_con(d, objs, op[1], op[2], op[3])
+    elif op[0] == "swap":
+        del d.variables[op[1]]
+        del objs[op[1]]
+        objs[op[2]] = h_var(op[2], dom, op[3])
+        d.add_variable(objs[op[2]])
+    else:
+        del d.constraints[op[1]]
+
+
+def h_eval(d, model, hist, part):
+    names = sorted(model.vars)
+    for vals in itertools.product(H_DOM, repeat=len(names)):
+        a = dict(zip(names, vals))
+        exp = model.solution_cost(a, 10000)
+        try:
+            got = tuple(d.solution_cost(dict(a), 10000))
+        except Exception as e:  # noqa
+            got = ("raised", type(e).__name__)
+        part.count("evaluations")
+        part.count("S3_evaluations")
+        if len(hist) > 0:
+            part.count("nontrivial_cases")
+        if tuple(got) != tuple(exp):
+            step = "after-" + hist[-1][0] if hist else "initial"
+            report(part, f"solution_cost|stale-after-change|{step}", lambda: f"one DCOP object, history {hist} (evaluated on every assignment after each step): solution_cost({a}, 10000) = {got}, the current definition {model.vars} / {model.cons} gives {exp}", lambda: {"kind": "history", "history": [list(o) for o in hist], "assignment": a})
+            return False
+    return True
+
+
+def history_shard(depth, sub, nsub):
+    """Every sequence of <= depth legal changes; the DCOP is rebuilt and the prefix replayed (with its evaluations) for each."""
+    part = Part()
+    ops = h_ops()
+    n = 0
+
+    def rec(hist, model):
+        nonlocal n
+        if len(hist) == depth:
+            return
+        for op in ops:
+            if not model.legal(op):
+                continue
+            h2 = hist + [op]
+            if len(h2) == 1:
+                n += 1
+                if n % nsub != sub:
+                    continue
+            m2 = HistoryModel()
+            d, dom, objs = h_build()
+            ok = h_eval(d, m2, [], part)
+            for i, o in enumerate(h2):
+                if not ok:
+                    break
+                try:
+                    h_apply(d, dom, objs, o)
+                except Exception as e:  # noqa
+                    report(part, f"history|change-raised|{type(e).__name__}|{o[0]}", lambda e=e: f"history {h2[:i + 1]}: the change raised {e!r}", lambda: {"kind": "history", "history": [list(x) for x in h2[:i + 1]]})
+                    ok = False
+                    break
+                m2.apply(o)
+                ok = h_eval(d, m2, h2[:i + 1], part)
+            part.count("S3_histories")
+            part.nontriv(("S3", tuple(map(str, h2))))
+            part.outcome(("S3", tuple(sorted(m2.vars.items())), tuple(sorted((k, str(v)) for k, v in m2.cons.items()))))
+            if ok:
+                rec(h2, m2)
+
+    rec([], HistoryModel())
+    return part
+
+
 def jobs_for(tier):
     jobs = []
+    for sub in range(16):
+        jobs.append(("S3", tier, 0, 2 if tier == "quick" else 3, None, 0, sub, 16))
     for b, band in enumerate(BANDS[tier]):
         for n in (1, 2, 3):
             for ext in (None, 0, 1):
@@ -548,6 +699,8 @@ def jobs_for(tier):
 
 def shard(job):
     space, tier, b, n, ext, sel, sub, nsub = job
+    if space == "S3":
+        return finish(history_shard(n, sub, nsub))
     part = Part()
     if space == "S1":
         band = BANDS[tier][b]
@@ -591,6 +744,10 @@ def run(ctx):
         f"external value in the assignment) on every complete assignment x infinity in {[enc(i) for i in INFINITIES]}; on every "
         "assignment of every strict subset of the variables (must raise ValueError); assignment_cost over all constraints on "
         "every complete assignment x consider_variable_cost x keyword splits (+ one shadowed keyword). Non-trivial = a term "
+        "S3 (histories): ONE DCOP object (x, y, z over {0,1}, constraint c0) is evaluated on every assignment, then changed through its public API "
+        "- a variable redefined under the same name with other costs, a constraint replaced under the same name (other table or scope) or added or "
+        "deleted, a variable removed and another added - and evaluated again after every step: every sequence of <= 2 (thorough 3) legal changes, "
+        "against the accounting of the current definition. "
         "equals infinity and another non-zero term is summed (solution_cost), a non-empty sub-assignment (rejection), a non-zero "
         "variable cost is requested (assignment_cost); non-trivial tokens are term profiles, not cases."
     )
@@ -605,6 +762,20 @@ def run(ctx):
 
 
 def replay(case):
+    if case.get("kind") == "history":
+        part = Part()
+        hist = [tuple(tuple(x) if isinstance(x, list) else x for x in o) for o in case["history"]]
+        m = HistoryModel()
+        d, dom, objs = h_build()
+        ok = h_eval(d, m, [], part)
+        for i, o in enumerate(hist):
+            h_apply(d, dom, objs, o)
+            m.apply(o)
+            ok = h_eval(d, m, hist[:i + 1], part) and ok
+            print("after", o, "ok" if ok else "MISMATCH")
+        for v in part.violations:
+            print(v["key"], "::", v["what"])
+        return bool(part.violations)
     alpha = [dec(a) for a in case["alpha"]]
     vcs = [tuple(v) for v in case["vcs"]]
     cons = tuple((tuple(s), k) for s, k in case["cons"])
